@@ -7,6 +7,7 @@ import (
 	"io"
 	"net"
 	"os"
+	"sort"
 	"sync"
 	"time"
 )
@@ -55,6 +56,21 @@ func (n *SimNet) OpenCount() (open int) {
 	n.mu.Lock()
 	defer n.mu.Unlock()
 	return len(n.Conns) + len(n.Lsns)
+}
+
+// OpenAddrs lists the local addresses of the sockets and listeners that are open now.
+func (n *SimNet) OpenAddrs() []string {
+	n.mu.Lock()
+	defer n.mu.Unlock()
+	var out []string
+	for k := range n.Conns {
+		out = append(out, k)
+	}
+	for k := range n.Lsns {
+		out = append(out, k)
+	}
+	sort.Strings(out)
+	return out
 }
 
 func (n *SimNet) Lookup(addr string) *SimPacketConn {
